@@ -1,4 +1,6 @@
 """C20 - UDP operator reports are faithful; scrape export is replaced atomically."""
+import os
+
 from vlib import *
 from storage import *
 import udp_storage as U
@@ -31,7 +33,90 @@ def mutate_export(evs):
     return None
 
 
+def rev_hash_hex(hx):
+    b = bytes.fromhex(hx)
+    return int.from_bytes(b[1:5], "big")
+
+
+def read_export(path):
+    if not os.path.exists(path):
+        return False, []
+    out = []
+    for line in open(path).read().splitlines():
+        p = line.split(" ")
+        try:
+            out.append([int(p[0]), rev_hash_hex(p[1]), int(p[2]), int(p[3])])
+        except Exception:
+            out.append([-1, -1, -1, -1])
+    return True, out
+
+
+def export_crashes(ctx):
+    """(b) a process abort after every individual step of the second export; a concurrent reader."""
+    import subprocess
+    res = run_tlc(ctx, "Export", "Export_MC.cfg", workers=4, timeout=300, coverage=True)
+    require_mc_ok(ctx, res, "Export (crash after every step)")
+    cargo_build(ctx)
+    n_old, n_new = 3, 5
+    old = [[4, h, 1, 0] for h in range(1, n_old + 1)]
+    new = [[4, h, 1, 1] for h in range(1, n_old + 1)] + [[4, h, 0, 1] for h in range(n_old + 1, n_new + 1)]
+    steps = [("created", "udp.export.created:abort:1")]
+    steps += [("line%d" % j, "udp.export.line:abort:%d" % (n_old + j - 1)) for j in range(1, n_new + 1)]
+    steps += [("flushed", "udp.export.flushed:abort:1"), ("renamed", "udp.export.renamed:abort:1")]
+    events = []
+    for k, (step, fault) in enumerate(steps):
+        d = ctx.path("export_%s" % step)
+        os.makedirs(d, exist_ok=True)
+        e = dict(os.environ)
+        e["AQUATIC_VERIF_FAULTS"] = fault
+        p = subprocess.run([hbin("udp_export"), d, str(n_old), str(n_new), "crash"], env=e,
+                           stdout=subprocess.PIPE, stderr=subprocess.PIPE, text=True, timeout=60)
+        if "FIRST-EXPORT-DONE" not in p.stdout or "VERIF-FAULT" not in p.stderr or "SECOND-EXPORT-DONE" in p.stdout:
+            raise ToolError("crash experiment %s did not crash where intended: rc=%s out=%s err=%s" %
+                            (step, p.returncode, p.stdout[-200:], p.stderr[-200:]))
+        exists, content = read_export(os.path.join(d, "export.txt"))
+        events.append({"ev": "reset", "run": k})
+        events.append({"ev": "crash", "step": step, "path_exists": exists, "content": content, "old": old,
+                       "new": new, "tmp_exists": os.path.exists(os.path.join(d, "export.tmp"))})
+    # reader during non-crashing exports of a large swarm
+    d = ctx.path("export_reader")
+    os.makedirs(d, exist_ok=True)
+    big = (3000, 5000) if ctx.quick() else (20000, 30000)
+    p = subprocess.run([hbin("udp_export"), d, str(big[0]), str(big[1]), "reader"], stdout=subprocess.PIPE,
+                       stderr=subprocess.PIPE, text=True, timeout=300)
+    rd = None
+    for line in p.stdout.splitlines():
+        if line.startswith("{"):
+            rd = json.loads(line)
+    if rd is None:
+        raise ToolError("reader experiment produced no summary: " + p.stderr[-300:])
+    events.append({"ev": "reset", "run": len(steps)})
+    events.append(rd)
+    tp = ctx.path("export.ndjson")
+    with open(tp, "w") as f:
+        for ev in events:
+            f.write(json.dumps(ev, separators=(",", ":")) + "\n")
+    acc, fails = validate_and_report(ctx, "Export_Trace", "Export_Trace.cfg", tp, "export",
+                                     lambda ev, pre, st: {"tracker": "udp", "part": "export",
+                                                          "step": ev.get("step") if isinstance(ev, dict) else None})
+    if not ctx.violations:
+        binding_selftest(ctx, "Export_Trace", "Export_Trace.cfg", tp, mutate_partial, label="selftest_export")
+    ctx.coverage["export_crash_steps"] = [s for s, _ in steps]
+    ctx.coverage["export_reader"] = rd
+    ctx.add_sample(events[1])
+
+
+def mutate_partial(evs):
+    for i in range(len(evs)):
+        if evs[i].get("ev") == "crash" and len(evs[i]["content"]) > 1:
+            m = json.loads(json.dumps(evs))
+            m[i]["content"] = m[i]["content"][:-1]
+            return m, "last line of the file at the export path dropped (partial file) at event %d" % i
+    return None
+
+
 def run(ctx):
+    export_crashes(ctx)
     # (a) reports: tally / totals / export on the model, then on the code
     for c in ["UdpSwarm_MC_B.cfg", "UdpSwarm_MC_C.cfg"]:
         res = run_tlc(ctx, "UdpSwarm_MC", c, workers=8, timeout=900)
